@@ -1,5 +1,5 @@
 #!/bin/bash
-# tools/mirror.sh : copies /repo's current working tree (src/) to /verif/sim/shadow/src-gen/ and routes
+# tools/mirror.sh : copies /repo's current working tree (src/) to <this checkout>/sim/shadow/src-gen/ and routes
 # every use of std's thread and synchronisation items through the seam of src/verif/mod.rs:
 #   std::sync::X  -> crate::verif::sync::X      std::thread -> crate::verif::thread
 #   thread_local! -> crate::verif::thread_local!      std::env -> crate::verif::env (reads and writes of
@@ -9,8 +9,9 @@
 # Line numbers are unchanged. Files whose content did not change keep their modification time.
 set -eu
 SRC=/repo/src
-DST=/verif/sim/shadow/src-gen
-NEW=/verif/sim/shadow/.src-gen.new.$$
+HERE="$(cd "$(dirname "$0")/.." && pwd)"
+DST="$HERE/sim/shadow/src-gen"
+NEW="$HERE/sim/shadow/.src-gen.new.$$"
 rm -rf "$NEW"; mkdir -p "$NEW" "$DST"
 cp -r "$SRC"/. "$NEW"/
 find "$NEW" -name '*.rs' ! -path "$NEW/verif/*" -print0 | xargs -0 sed -i -E \
